@@ -12,7 +12,7 @@ from sim import world as W
 
 PROPERTY = "C07"
 LEVEL = "exploration"
-BUDGET = {"quick": 170, "thorough": 2400}
+BUDGET = {"quick": 170, "thorough": 3000}
 ASSUMPTIONS = [
     "equality of constructor arguments is Python equality for hashable atoms, identity for arrays and for funsors (whose __eq__ is overloaded)",
     "the automatic collector is disabled; collections happen only as scheduled events (refcount frees stay immediate)",
